@@ -12,6 +12,7 @@
 #include <cgreen/internal/cgreen_time.h>
 
 #include "runner.h"
+#include "verif_hooks.h"
 
 #ifdef __ANDROID__
 #include "cgreen/internal/android_headers/androidcompat.h"
@@ -405,6 +406,7 @@ void run_the_test_code(TestSuite *suite, CgreenTest *spec, TestReporter *reporte
         die_in(per_test_timeout_value());
     }
 
+    CGREEN_VERIF_KILLPOINT("before_setup");
     // for historical reasons the suite can have a setup
     if (has_setup(suite))
     {
@@ -418,7 +420,9 @@ void run_the_test_code(TestSuite *suite, CgreenTest *spec, TestReporter *reporte
         }
     }
 
+    CGREEN_VERIF_KILLPOINT("after_setup");
     run(spec);
+    CGREEN_VERIF_KILLPOINT("after_body");
     // for historical reasons the suite can have a teardown
     if (has_teardown(suite))
     {
@@ -432,7 +436,9 @@ void run_the_test_code(TestSuite *suite, CgreenTest *spec, TestReporter *reporte
         }
     }
 
+    CGREEN_VERIF_KILLPOINT("after_teardown");
     tally_mocks(reporter);
+    CGREEN_VERIF_KILLPOINT("after_tally");
 }
 
 void die(const char *message, ...)
